@@ -294,7 +294,9 @@ def corr_run(ctx, name, vh_args, component_desc, nontrivial=lambda c: True, spec
 
 COQ_CHECKERS = {"PC": ("Corr.PrecompileCorr", "pc_check_items"), "TH": ("Corr.TracerCorr", "th_check_items"), "JO": ("Corr.JournalCorr", "jo_check_items"),
                 "EX": ("Corr.ExecCorr", "ex_check_items"), "MC": ("Corr.MemCorr", "mc_check_items"), "TR": ("Corr.CallTracerCorr", "tr_check_items"),
-                "CN": ("Corr.CancelCorr", "cn_check_items"), "CG": ("Corr.CallGasCorr", "cg_check_items")}
+                "CN": ("Corr.CancelCorr", "cn_check_items"), "CG": ("Corr.CallGasCorr", "cg_check_items"),
+                "JD": ("Corr.JumpDestCorr", "jd_check_items"), "MG": ("Corr.ModExpCorr", "mg_check_items"), "MS": ("Corr.MemSizeCorr", "ms_check_items"),
+                "SS": ("Corr.SStoreCorr", "ss_check_items")}
 
 
 def items_to_coq(toks):
